@@ -605,6 +605,21 @@ class MatchVal:
         return True
 
 
+class DictVal:
+    """A dict display (local or module-level constant) in the scenario evaluator."""
+    def __init__(self, node: ast.Dict) -> None:
+        self.node = node
+
+
+class FnRef:
+    """A function value (lambda / function name / `operator.x`) taken out of a dispatch table."""
+    def __init__(self, node: ast.AST) -> None:
+        self.node = node
+
+    def __repr__(self) -> str:
+        return "fn:" + norm_text(self.node)[:30]
+
+
 class PartialTuple(tuple):
     """A tuple display some of whose elements could not be evaluated (only membership hits are decidable)."""
 
@@ -652,12 +667,17 @@ def concrete_eval(ctx: Ctx, f: FunctionInfo, e: Optional[ast.AST], env: Dict[str
                     and isinstance(dn.ast.targets[0], ast.Name):
                 return concrete_eval(ctx, f, dn.ast.value, env, d, depth + 1)
             if d != g.entry and dn.kind == "stmt" and isinstance(dn.ast, ast.Assign) and len(dn.ast.targets) == 1 \
+                    and isinstance(dn.ast.targets[0], ast.Name) and isinstance(dn.ast.value, ast.Dict):
+                return DictVal(dn.ast.value)
+            if d != g.entry and dn.kind == "stmt" and isinstance(dn.ast, ast.Assign) and len(dn.ast.targets) == 1 \
                     and isinstance(dn.ast.targets[0], (ast.Tuple, ast.List)):
                 elts = dn.ast.targets[0].elts
                 idx = next((i for i, t in enumerate(elts) if isinstance(t, ast.Name) and t.id == e.id), None)
                 v = concrete_eval(ctx, f, dn.ast.value, env, d, depth + 1)
                 if idx is not None and isinstance(v, (tuple, list)) and len(v) == len(elts):
                     return v[idx]
+        if not defs and isinstance(f.module.consts.get(e.id), ast.Dict):
+            return DictVal(f.module.consts[e.id])  # type: ignore[arg-type]
         return UNKNOWN
     if isinstance(e, ast.Attribute):
         dn_ = dotted(e)
@@ -730,6 +750,12 @@ def concrete_eval(ctx: Ctx, f: FunctionInfo, e: Optional[ast.AST], env: Dict[str
         return PartialTuple(vals) if any(v is UNKNOWN for v in vals) else tuple(vals)
     if isinstance(e, ast.Subscript):
         v = ev(e.value)
+        if isinstance(v, DictVal):
+            key = ev(e.slice)
+            for k, val in zip(v.node.keys, v.node.values):
+                if k is not None and key is not UNKNOWN and ev(k) == key:
+                    return FnRef(val) if isinstance(val, (ast.Lambda, ast.Name, ast.Attribute)) else ev(val)
+            return UNKNOWN
         if isinstance(v, (tuple, list, str)) and not isinstance(v, PartialTuple):
             if isinstance(e.slice, ast.Slice):
                 lo = ev(e.slice.lower) if e.slice.lower is not None else None
@@ -767,6 +793,26 @@ def concrete_eval(ctx: Ctx, f: FunctionInfo, e: Optional[ast.AST], env: Dict[str
             else:
                 return UNKNOWN
         return "".join(out)
+    if isinstance(e, ast.Dict):
+        return DictVal(e)
+    if isinstance(e, ast.Lambda):
+        return FnRef(e)
+    if isinstance(e, ast.Call) and isinstance(e.func, ast.Attribute) and e.func.attr == "get" and e.args:
+        base = ev(e.func.value)
+        if isinstance(base, DictVal):
+            key = ev(e.args[0])
+            if key is UNKNOWN:
+                return UNKNOWN
+            unknown_key = False
+            for k, v in zip(base.node.keys, base.node.values):
+                kv = ev(k) if k is not None else UNKNOWN
+                if kv is UNKNOWN:
+                    unknown_key = True
+                elif kv == key:
+                    return FnRef(v) if isinstance(v, (ast.Lambda, ast.Name, ast.Attribute)) and not isinstance(ev(v), (EnumVal, str, int)) else ev(v)
+            if unknown_key:
+                return UNKNOWN
+            return ev(e.args[1]) if len(e.args) > 1 else None
     if isinstance(e, ast.Call):
         fn = e.func
         if isinstance(fn, ast.Name) and fn.id == "isinstance" and len(e.args) == 2:
